@@ -1377,9 +1377,12 @@ class SVG:
         # Simplify things that simplify in isolation
         self.apply_style_attributes(inplace=True)
         self.resolve_nested_svgs(inplace=True)
+        # instantiate <use> before shapes are parsed: writing parsed shapes back
+        # drops attributes that equal the value inherited at the original
+        # location, which is wrong for a copy that lands somewhere else
+        self.resolve_use(inplace=True)
         self.shapes_to_paths(inplace=True)
         self.expand_shorthand(inplace=True)
-        self.resolve_use(inplace=True)
 
         # Simplify things that do not simplify in isolation
         self.simplify(inplace=True)
